@@ -359,7 +359,7 @@ fn resave(ctx: &mut Ctx, fmt: &'static str, bytes: &[u8], origin: &str, compress
         if let Ok(Ok(b2)) = &l2 { p2 = picture(b2, embeds_fonts(fmt), false, false, b1.get_height() + 2); }
     }
     ctx.id += 1;
-    let ncell = (b1.get_width() * b1.get_height()).max(0) as usize;
+    let ncell = (b1.get_width().max(0) as usize) * (b1.get_height().max(0) as usize);
     let ev = json!({"ev":"rs","id":ctx.id,"fmt":fmt,"origin":origin,"compress":compress as u8,"sauce":sauce as u8,"nbytes":bytes.len(),"p1":p1,"save":st_save,"l2":st_l2,"p2":p2});
     ctx.emit(&ev, ncell * 60);
     ctx.count(format!("rs:{fmt}:{}", origin.split(':').next().unwrap_or("")));
@@ -424,7 +424,11 @@ pub fn c05(a: &Args) {
         if k % 3 == 0 { resave(&mut ctx, fmt, bytes, "own", *compress, 4_000); }
         let (kind, m) = mutate(&mut r, fmt, bytes);
         let c = r.gen_bool(0.5);
-        resave(&mut ctx, fmt, &m, &format!("mut:{kind}"), c, 4_000);
+        // the projection of a buffer loaded from a mutated file is the harness's own code: a panic there is a tool error, say where
+        if let Err(p) = guard(|| resave(&mut ctx, fmt, &m, &format!("mut:{kind}"), c, 4_000)) {
+            eprintln!("c05: harness panic while projecting a mutated {fmt} file ({kind}): {} at {}:{}", p.msg, p.file, p.line);
+            std::process::exit(2);
+        }
     }
     for o in ctx.out.iter_mut() { o.flush(); }
     std::fs::write(format!("{prefix}-summary.json"), serde_json::to_string(&json!({"events": ctx.id, "counts": ctx.counts})).unwrap()).unwrap();
